@@ -18,8 +18,8 @@ def calc_frac_identity(chk, lib, rule):
     x1, y1, x2, y2, x = A('x1'), A('y1'), A('x2'), A('y2'), A('x')
     try:
         out = deref_all(Interp(lib, KModel()).call_def(b['def'], [Tup([Num(x1), Num(y1)]), Tup([Num(x2), Num(y2)]), Num(x)]))
-    except (Unsupported, Diverge) as ex:
-        chk.ob(rule, "calc_frac is a closed-form arithmetic expression of its five inputs: %s" % ex, False, ex.where, 'calc_frac-shape')
+    except Exception as ex:
+        chk.ob(rule, "calc_frac is a closed-form arithmetic expression of its five inputs: %s" % ex, False, getattr(ex, 'where', ''), 'calc_frac-shape')
         return None
     if not isinstance(out, Num):
         chk.ob(rule, "calc_frac returns a number", False, b['span'], 'calc_frac-shape')
@@ -85,8 +85,11 @@ def run(chk):
                   isinstance(deref_all(out.items[1]), Obj) and deref_all(out.items[1]).kind == 'lanes' and
                   deref_all(out.items[1]).d['r'] == data_atom('y', [Rat.atom('k')]))
             chk.ob('R1.3', "index_point(k) == (x[k], data.index_axis(Axis(0), k)) (got %r)" % (out,), ok, b['span'], 'index_point')
-        except (Unsupported, Diverge) as ex:
-            chk.ob('R1.3', "index_point is plain indexing: %s" % ex, False, ex.where, 'index_point')
+        except Exception as ex:
+            chk.ob('R1.3', "index_point is plain indexing: %s" % ex, False, getattr(ex, 'where', ''), 'index_point')
+    # 'the two data points that bracket it': the comparison skeleton of the bracket lookup (shared with C11)
+    from . import c11
+    c11.analyse(chk, lib, set_text=False)
     chk.explanation = ("The arithmetic kernel of the Linear strategy is extracted from the typed tree and normalised as a "
                        "rational function: it is identically the straight line through the two bracketing points, for every "
                        "lane, with the query unmodified. Decided over the reals; rounding is out of reach of this technique.")
